@@ -129,6 +129,15 @@ def run_filters(desc, seed, res):
     enums = [mk_filter_enum(width)]
     if width == 8:
         enums += [pushbutton.InstanceEventFilter, occupancy.InstanceEventFilter, light.InstanceEventFilter]
+    # the order in which widths are asked for must not matter: the generic base class and the shipped 8-bit filters are asked
+    # first (an application listing the filter types it knows does that), then the wide user-defined one
+    from dali.device import general as _g
+    for base in (_g.InstanceEventFilter, pushbutton.InstanceEventFilter):
+        try:
+            base.dali_width()
+        except Exception:
+            pass
+    res.hit("base_width_asked_first")
     for E in enums:
         try:
             dw = E.dali_width()
@@ -325,8 +334,10 @@ def run_schemes(seed, res):
                         res.violation("C13/scheme/return", f"returned {val!r}, the unit reports scheme {s}", wit)
                 if any(x.set_scheme_count for k, x in enumerate(dev.instances) if k != idx) or other.instances[0].scheme != 1:
                     res.violation("C13/scheme/other-instance-changed", "an instance that was not addressed changed", wit)
-    for bad in (5, 6, 255, -1, 1000):
+    # every number that is no scheme: also those whose low three bits look like one (8 = 0b1000, 0x80, 0x84, 12, 18 ...)
+    for bad in sorted(set(range(5, 256)) | {-1, -128, 256, 257, 1000, 0x10000}):
         res.evaluations += 1
+        res.hit("invalid_schemes_checked")
         try:
             g = SetEventSchemes(9, 1, bad)
             first = next(g)
